@@ -206,3 +206,128 @@ def ccanon(text):
             continue
         items.append("(%s, %s)" % (core.ctext(w), core.ctext(repr(v))))
     return core.clist(items, "(text * text)")
+
+
+# ---------------------------------------------------------------- independent Praat text reader (Python twin of ref_parse)
+
+def py_ref_tokens(text):
+    """Free-standing tokens of a Praat text file: numbers, "strings" with doubled
+    quotes, <flags>; everything else is comment.  Written from Praat's TextGrid
+    file formats page, independently of praatio."""
+    import re
+    toks = []
+    i, n = 0, len(text)
+    numre = re.compile(r"-?[0-9]+(\.[0-9]+)?([eE][-+]?[0-9]+)?\Z")
+    while i < n:
+        c = text[i]
+        if c.isspace():
+            i += 1
+        elif c == '"':
+            j = i + 1
+            buf = []
+            while True:
+                if j >= n:
+                    raise ValueError("unterminated string")
+                if text[j] == '"':
+                    if j + 1 < n and text[j + 1] == '"':
+                        buf.append('"')
+                        j += 2
+                        continue
+                    break
+                buf.append(text[j])
+                j += 1
+            toks.append(("str", "".join(buf)))
+            i = j + 1
+        elif c == "!":
+            while i < n and text[i] != "\n":
+                i += 1
+        else:
+            j = i
+            while j < n and not text[j].isspace():
+                j += 1
+            w = text[i:j]
+            if w.startswith("<") and w.endswith(">"):
+                toks.append(("flag", w))
+            elif numre.match(w):
+                toks.append(("num", w))
+            i = j
+    return toks
+
+
+def py_ref_parse(text):
+    t = py_ref_tokens(text)
+    pos = [0]
+
+    def nxt(kind):
+        if pos[0] >= len(t) or t[pos[0]][0] != kind:
+            raise ValueError("expected %s at token %d, got %r" % (kind, pos[0], t[pos[0]] if pos[0] < len(t) else None))
+        pos[0] += 1
+        return t[pos[0] - 1][1]
+    if nxt("str") != "ooTextFile" or nxt("str") != "TextGrid":
+        raise ValueError("bad header")
+    xmin, xmax = nxt("num"), nxt("num")
+    if nxt("flag") != "<exists>":
+        raise ValueError("bad flag")
+    ntiers = int(nxt("num"))
+    tiers = []
+    for _ in range(ntiers):
+        cls, name = nxt("str"), nxt("str")
+        if cls not in ("IntervalTier", "TextTier"):
+            raise ValueError("bad class %r" % cls)
+        tmin, tmax, cnt = nxt("num"), nxt("num"), int(nxt("num"))
+        ents = []
+        for _ in range(cnt):
+            if cls == "IntervalTier":
+                ents.append([nxt("num"), nxt("num"), nxt("str")])
+            else:
+                ents.append([nxt("num"), nxt("str")])
+        tiers.append({"isint": cls == "IntervalTier", "name": name, "xmin": tmin, "xmax": tmax, "entries": ents})
+    if pos[0] != len(t):
+        raise ValueError("%d tokens left over" % (len(t) - pos[0]))
+    return {"xmin": xmin, "xmax": xmax, "tiers": tiers}
+
+
+def content_of_text(text):
+    """decoded content with numeric times"""
+    r = py_ref_parse(text)
+    return {"xmin": float(r["xmin"]), "xmax": float(r["xmax"]),
+            "tiers": [{"isint": t["isint"], "name": t["name"], "xmin": float(t["xmin"]), "xmax": float(t["xmax"]),
+                       "entries": [[float(x) for x in e[:-1]] + [e[-1]] for e in t["entries"]]} for t in r["tiers"]]}
+
+
+def content_of_tgjson(text):
+    d = json.loads(text)
+    if set(d.keys()) != {"xmin", "xmax", "tiers"} or not isinstance(d["tiers"], list):
+        raise ValueError("textgrid_json: top-level keys %r" % sorted(d.keys()))
+    tiers = []
+    for t in d["tiers"]:
+        if set(t.keys()) != {"class", "name", "xmin", "xmax", "entries"}:
+            raise ValueError("textgrid_json: tier keys %r" % sorted(t.keys()))
+        if t["class"] not in ("IntervalTier", "TextTier"):
+            raise ValueError("textgrid_json: class %r" % t["class"])
+        k = 3 if t["class"] == "IntervalTier" else 2
+        for e in t["entries"]:
+            if len(e) != k or not isinstance(e[-1], str) or not all(isinstance(x, (int, float)) for x in e[:-1]):
+                raise ValueError("textgrid_json: entry %r" % (e,))
+        tiers.append({"isint": t["class"] == "IntervalTier", "name": t["name"], "xmin": float(t["xmin"]), "xmax": float(t["xmax"]),
+                      "entries": [[float(x) for x in e[:-1]] + [e[-1]] for e in t["entries"]]})
+    return {"xmin": float(d["xmin"]), "xmax": float(d["xmax"]), "tiers": tiers}
+
+
+def content_of_json(text):
+    d = json.loads(text)
+    if set(d.keys()) != {"start", "end", "tiers"} or not isinstance(d["tiers"], dict):
+        raise ValueError("json: top-level keys %r" % sorted(d.keys()))
+    tiers = []
+    for name, t in d["tiers"].items():
+        if set(t.keys()) != {"type", "entries"}:
+            raise ValueError("json: tier keys %r" % sorted(t.keys()))
+        if t["type"] not in ("IntervalTier", "TextTier"):
+            raise ValueError("json: type %r" % t["type"])
+        k = 3 if t["type"] == "IntervalTier" else 2
+        for e in t["entries"]:
+            if len(e) != k or not isinstance(e[-1], str) or not all(isinstance(x, (int, float)) for x in e[:-1]):
+                raise ValueError("json: entry %r" % (e,))
+        tiers.append({"isint": t["type"] == "IntervalTier", "name": name, "xmin": float(d["start"]), "xmax": float(d["end"]),
+                      "entries": [[float(x) for x in e[:-1]] + [e[-1]] for e in t["entries"]]})
+    return {"xmin": float(d["start"]), "xmax": float(d["end"]), "tiers": tiers}
